@@ -10,7 +10,7 @@
      is_v2 ver                         the balance-version string selects the incremental algorithm
      even_topology nodes k             every data centre that occurs has exactly k nodes
      dcs_of nodes / node_dc nodes x    the sorted data-centre names / the data centre of node x  *)
-From ZV Require Import Common.Bytes Part.Model Place.Consts Place.Model Place.Proofs Place.ProofsV2 Place.SweepDefs Place.ProofsV2Fresh.
+From ZV Require Import Common.Bytes Part.Model Place.Consts Place.Model Place.Proofs Place.ProofsV2 Place.SweepDefs Place.ProofsV2Fresh Place.ProofsOrder.
 From Coq Require Import Permutation.
 Open Scope nat_scope.
 
@@ -52,6 +52,22 @@ Theorem C17_order_independent : forall ver ns p r olds nodes nodes',
   Permutation nodes nodes' -> rebalance ver ns p r olds nodes = rebalance ver ns p r olds nodes'.
 Proof. exact rebalance_perm_invariant. Qed.
 Print Assumptions C17_order_independent.
+
+(* (3') inside V2 the Go code finds the least / most loaded node by inserting the entries of a Go map into a
+   tree map and taking Min()/Max(): the selected entries are the same for every enumeration order, because
+   the comparators are strict total orders on entries with distinct nameIndex — and the indices handed out
+   by fillPartitionMapV2 (ring position rotated by the namespace hash) are pairwise distinct *)
+Theorem C17_v2_minmax_order_independent : forall ls ls',
+  NoDup (map nl_idx ls) -> Permutation ls ls' ->
+  min_by lead_ltb ls = min_by lead_ltb ls' /\ max_by lead_ltb ls = max_by lead_ltb ls' /\
+  min_by rep_ltb ls = min_by rep_ltb ls' /\ max_by rep_ltb ls = max_by rep_ltb ls'.
+Proof. exact minmax_order_independent. Qed.
+Print Assumptions C17_v2_minmax_order_independent.
+
+Theorem C17_v2_indices_distinct : forall h (ring : list (list N)),
+  NoDup (map nl_idx (init_loads h (N.of_nat (length ring)) 0 ring)).
+Proof. exact init_idx_nodup. Qed.
+Print Assumptions C17_v2_indices_distinct.
 
 (* (4) ring algorithm, nodes evenly spread over at least r data centres: no two replicas of a
    partition share a data centre *)
